@@ -14,7 +14,7 @@ BUILDER_C02 = ["builder_doc", "builder_equiv_dict", "builder_run_callsOfDoc", "b
                "builder_none_hides_default_dest", "builder_none_vs_omitted_counterexample", "builder_time_units_none_kept",
                "builder_infinity_string", "builder_values_verbatim", "builder_infinity_elsewhere_counterexample"]
 FILES = {
-    "C01": ["C01", "C01Ops", ("Builder", BUILDER_C01)], "C02": ["C02", ("Builder", BUILDER_C02)], "C03": ["C03"], "C04": ["C04"], "C05": ["C05"], "C06": ["C06"],
+    "C01": ["C01", "C01Ops", "C01Accessors", ("Builder", BUILDER_C01)], "C02": ["C02", ("Builder", BUILDER_C02)], "C03": ["C03"], "C04": ["C04"], "C05": ["C05"], "C06": ["C06"],
     "C07": ["C07"], "C08": ["C08"], "C09": ["C09", "C09Real"], "C10": ["C10"], "C11": ["C11"], "C12": ["C12"],
     "C13": ["C13", "C13Real"], "C14": ["C14", "C14Close"], "C15": ["C15"], "C16": ["C16"], "C17": ["C17"], "C18": ["C18", ("Builder", BUILDER_C18)],
     "C19": ["C19"], "C20": ["C20"],
@@ -145,16 +145,37 @@ GUARDS_RECORDS_CLOSE = ["guards_record_assert_close_returns", "guards_tie_split_
 GUARDS_DEME_EPOCHS = ["guards_deme_check_epochs_shape", "guards_deme_check_epochs_at_construction", "guards_tie_deme_check_epochs",
                       "guards_deme_check_epochs_meaning", "guards_deme_check_epochs_is_v5_alignment",
                       "guards_deme_check_epochs_valid", "guards_deme_check_epochs_resolved"]
+# translator tie of the five read accessors (C01, C15: Theorems/TablesAccessors.lean): Generated/Accessors.lean
+ACCESSOR_TABLES = ["accessors_bodies", "accessors_fields", "accessors_tie_epoch_time_span", "accessors_tie_deme_end_time",
+                   "accessors_deme_end_time_raises", "accessors_tie_deme_time_span", "accessors_tie_graph_getitem",
+                   "accessors_tie_graph_contains"]
+ACCESSOR_LOOKUPS = [{"module": "DemesVerif.Theorems.C01Accessors", "name": f"Demes.Theorems.{n}"} for n in
+                    ["getItem_ok_iff_deme?", "contains_eq_hasName", "rename_getItem", "rename_contains",
+                     "rename_getItem_old_name_gone", "rename_getItem_unused_name"]]
+# semantic tie of the post-passes of from_ms (C08: Generated/GuardsMsPost.lean): Builder._add_migrations_from_matrices,
+# _remove_transient_demes, _sort_demes_by_ancestry, ms.remap_deme_names, ms.from_ms and the end of build_graph
+GUARDS_MS_POST_SHAPE = ["guards_sites_ms_post", "guards_tests_ms_post", "guards_context_ms_post", "guards_ms_post_effects",
+                        "guards_from_ms_pipeline"]
+GUARDS_MS_POST_NAMES = ["guard_ms_post_names_given_meaning", "guard_ms_post_names_count_meaning", "guards_tie_from_ms"]
+GUARDS_MS_POST = GUARDS_MS_POST_SHAPE + [
+    "guard_ms_post_lengths_meaning", "guard_ms_post_has_names_meaning", "guard_ms_post_square_meaning",
+    "guard_ms_post_row_meaning", "guard_ms_post_diagonal_meaning", "guard_ms_post_no_current_meaning",
+    "guard_ms_post_new_rate_meaning", "guard_ms_post_rate_zero_meaning", "guard_ms_post_same_rate_meaning",
+    "guards_tie_migration_cell", "guards_tie_add_migrations_from_matrices", "guard_ms_post_has_demes_meaning",
+    "guard_ms_post_skip_meaning", "guard_ms_post_transient_meaning", "guard_ms_post_pulse_source_meaning",
+    "guard_ms_post_pulse_dest_meaning", "guard_ms_post_migration_source_meaning", "guard_ms_post_migration_dest_meaning",
+    "guards_tie_remove_transient_demes", "guard_ms_post_sort_le_meaning", "guards_tie_sort_demes_by_ancestry"] + GUARDS_MS_POST_NAMES
 CODEC_TABLES = T("TablesCodec", ["tables_codec_yaml_load", "tables_codec_yaml_dump", "tables_codec_calls"])
 EXTRA = {
-    "C01": T("TablesResolve", RESOLVE_TABLES) + T("TablesConst", ["tables_rel_tol"]) + G_RESOLVE + IDENT_TABLES + G_DEME_EPOCHS(),
+    "C01": T("TablesResolve", RESOLVE_TABLES) + T("TablesConst", ["tables_rel_tol"]) + G_RESOLVE + IDENT_TABLES + G_DEME_EPOCHS()
+    + T("TablesAccessors", ACCESSOR_TABLES),
     "C02": T("TablesResolve", RESOLVE_TABLES) + T("TablesGuardsBuilder", GUARDS_BUILDER)
     + T("TablesFacts", ["fact_builder_resolve_only_passes_data"]),
     "C03": T("TablesResolve", RESOLVE_TABLES) + T("TablesConst", ["tables_rel_tol"]) + G_RESOLVE + IDENT_TABLES + G_DEME_EPOCHS(),
     "C05": T("TablesResolve", RESOLVE_TABLES[:7]) + T("TablesGuardsSimplify", GUARDS_SIMPLIFY),
     "C06": T("TablesResolve", RESOLVE_TABLES[:7]),
     "C07": T("TablesMs", MS_TABLES) + T("TablesGuardsToMs", GUARDS_TO_MS),
-    "C08": T("TablesMs", MS_TABLES) + T("TablesGuardsMsBuild", GUARDS_MS_BUILD),
+    "C08": T("TablesMs", MS_TABLES) + T("TablesGuardsMsBuild", GUARDS_MS_BUILD) + T("TablesGuardsMsPost", GUARDS_MS_POST),
     "C09": T("TablesMs", MS_TABLES),
     "C16": T("TablesGuardsIO", GUARDS_IO) + CODEC_TABLES,
     "C04": CODEC_TABLES,
@@ -165,7 +186,8 @@ EXTRA = {
     "C14": T("TablesResolve", EVENT_TABLES) + T("TablesGuardsViews", GUARDS_VIEWS) + T("TablesGuardsRecords", GUARDS_RECORDS)
            + T("TablesGuardsRecordsClose", GUARDS_RECORDS_CLOSE)
            + T("TablesGuardsClose", ["guards_tie_isclose_deme_proportions"]) + T("TablesConst", ["tables_rel_tol", "tables_abs_tol"]),
-    "C15": T("TablesFacts", ["fact_rename_demes_copies_first"]) + T("TablesGuardsRename", GUARDS_RENAME) + IDENT_TABLES[:3],
+    "C15": T("TablesFacts", ["fact_rename_demes_copies_first"]) + T("TablesGuardsRename", GUARDS_RENAME) + IDENT_TABLES[:3]
+    + ACCESSOR_LOOKUPS + T("TablesAccessors", ["accessors_bodies", "accessors_fields", "accessors_tie_graph_getitem", "accessors_tie_graph_contains"]),
     "C18": T("TablesFacts", ["fact_fromdict_copies_first", "fact_builder_resolve_passes_data", "fact_fromdict_copy_is_unaliased", "fact_deepcopy_unaliased_shape", "fact_builder_resolve_only_passes_data"])
     + T("TablesGuardsBuilder", GUARDS_BUILDER),
     "C19": T("TablesMs", ["tables_cli_parse_flags", "tables_cli_parse_tests"]) + T("TablesGuardsCli", GUARDS_CLI),
